@@ -321,7 +321,7 @@ pub proof fn lemma_errs_plus_compose(es: Seq<SplError>, a: usize, b: usize)
 }
 
 //~assume tree data invariant `errors_ok`: every Reference offset applied to the errors below it is representable in usize, and array-size literals carry no errors (established by the nom parser, out of reach)
-//~not_decided whether the errors stored in the tree are the ones SPL prescribes for declaration, main, call, variable rules (table/build.rs: HashMap, closures)
+//~not_decided (here) whether the errors stored in the tree are the ones SPL prescribes: decided for the declaration / main rules in unit `decls` and for the semantic rules in unit `rules`; syntax errors (nom parser) are not decided anywhere
 pub proof fn witness_errors(i: AstInfo) {
     let e = Expression::Error(i);
     assert(ok_expr(e));
